@@ -391,6 +391,16 @@ theorem observe_strictly_increasing_run (st : State) (evs : List Event) (hid : I
   omega
 
 
+/-- (1) from an INITIAL state: no invariant hypothesis left -/
+theorem observe_strictly_increasing_run_init (res : List Res) (stTicks : Nat) (evs : List Event)
+    (hids : (res.map (·.id)).Nodup) (hsubs : ∀ y ∈ res, y.subs = []) (hobs : ∀ y ∈ res, y.observe < 16777216) :
+    (run (init res stTicks) evs).2.Pairwise (fun a b => isNotif a = true → isNotif b = true → SameObs a b →
+      a.ver < b.ver ∧ ∀ x z, a.obs = some x → b.obs = some z → b.ver - a.ver < 8388608 → serialGt z x) :=
+  observe_strictly_increasing_run (init res stTicks) evs hids
+    (by intro y hy; unfold NoDup; rw [hsubs y hy]; exact List.Pairwise.nil) hobs
+
+example : ∀ y ∈ [mkRes 0 false false 16777214, mkRes 1 true false 4294967295], y.observe < 16777216 := by decide
+
 /-! witness: the hypotheses are satisfiable and the statement bites — a run across the 24-bit wrap with a burst of changes -/
 def runStart : State := init [mkRes 0 false false 16777214, mkRes 1 true false 7] 30000
 def runEvents : List Event :=
